@@ -298,6 +298,8 @@ class Ctx:
                 return False
         sig = out.signature
         small, calls = case, 0
+        if 'hangs' in sig:
+            shrink_budget = 0      # every re-execution would wait out the watchdog
         if shrink_budget:
             def still(c):
                 o = execute(c)
